@@ -229,6 +229,11 @@ func interesting(r *vf.Rng, tbl []Proto, prev Hdr, honest Hdr, field int) uint64
 
 func mutate(r *vf.Rng, tbl []Proto, prev, honest Hdr) Hdr {
 	c := honest
+	if r.Chance(12) { // carry the parent's version state over unchanged
+		c = prev
+		c.Num = prev.Num + 1
+		return c
+	}
 	n := 1 + r.Intn(2)
 	if r.Chance(15) {
 		n = 3 + r.Intn(3)
@@ -339,12 +344,22 @@ func gen(seed uint64, n int, outDir, corpusDir string) {
 				honest = Hdr{Num: prev.Num + 1, Cur: prev.Cur}
 			}
 			adversarial := r.Chance(45)
+			// a proposal that outlived its window below the threshold: let honest
+			// builders carry on so that the oracle sees where it leads
+			zombie := false
+			if pp, ok := inTable(tbl, prev.Cur); ok && g.live && prev.Num >= g.nvb && g.inWindow < pp.Threshold {
+				zombie = true
+				adversarial = false
+				if s+1 >= steps && prev.Num < g.nso && steps < 400 {
+					steps++
+				}
+			}
 			if adversarial {
 				c.Curr = mutate(r, tbl, prev, honest)
 			} else {
 				c.Curr = honest
 				// an honest node may also not know the proposed version: drop the approval
-				if r.Chance(20) && honest.Nv != 0 && honest.Na == prev.Na+1 {
+				if !zombie && r.Chance(20) && honest.Nv != 0 && honest.Na == prev.Na+1 {
 					c.Curr.Na = prev.Na
 				}
 			}
